@@ -1,0 +1,42 @@
+//! Verification hooks, compiled only with the `verif-hooks` feature.
+//!
+//! Lets a test harness replace the socket an [`EventLoop`](crate::EventLoop) (v4 or v5)
+//! connects to with an in-memory stream. Everything above the socket (MQTT handshake,
+//! pending handling, `select()`) is the ordinary code path.
+
+use std::cell::RefCell;
+use std::future::Future;
+use std::io;
+use std::pin::Pin;
+
+use crate::framed::AsyncReadWrite;
+
+/// Stream handed to the event loop in place of a TCP connection
+pub type Stream = Box<dyn AsyncReadWrite>;
+/// Future returned by a connector
+pub type Connecting = Pin<Box<dyn Future<Output = io::Result<Stream>> + Send>>;
+
+type Connector = Box<dyn FnMut() -> Connecting>;
+
+thread_local! {
+    static CONNECTOR: RefCell<Option<Connector>> = const { RefCell::new(None) };
+}
+
+/// Installs a connector for event loops polled on the current thread. Every
+/// (re)connection attempt calls it once.
+pub fn set_connector<F>(connector: F)
+where
+    F: FnMut() -> Connecting + 'static,
+{
+    CONNECTOR.with(|c| *c.borrow_mut() = Some(Box::new(connector)));
+}
+
+/// Removes the connector installed on the current thread, if any
+pub fn clear_connector() {
+    CONNECTOR.with(|c| *c.borrow_mut() = None);
+}
+
+pub(crate) async fn connect() -> Option<io::Result<Stream>> {
+    let connecting = CONNECTOR.with(|c| c.borrow_mut().as_mut().map(|connector| connector()))?;
+    Some(connecting.await)
+}
